@@ -116,6 +116,41 @@ static void crec(int *seq, int d) {
 	for (int k = 0; k < NCS; k++) { seq[d] = k; crec(seq, d + 1); }
 }
 
+// ---- 2b. dictionary reset after the window has wrapped ------------------------------------------------------
+// Small dictionary (4 KiB), more than one dictionary of output first, then a chunk that resets the dictionary, then a chunk whose
+// first packet is a match: valid only if its distance stays inside the data written since the reset.
+static int init_raw4k(lzma_stream *s, void *a) { (void)a; static lzma_options_lzma o; o.dict_size = 4096; static lzma_filter f[2]; f[0].id = LZMA_FILTER_LZMA2; f[0].options = &o; f[1].id = LZMA_VLI_UNKNOWN; return lzma_raw_decoder(s, f) == LZMA_OK; }
+static void wrap_family(void) {
+	static uint8_t big[6000]; { uint32_t x = 99; for (size_t i = 0; i < sizeof big; i++) { x = x * 1103515245u + 12345u; big[i] = (uint8_t)((x >> 16) % 7 + 'a'); } }
+	static const uint32_t DIST[] = { 0, 1, 5, 8, 9, 10, 11, 12, 100, 2047, 4094, 4095, 4096, 5000 };
+	for (int pre = 0; pre < 4; pre++) for (int rst = 0; rst < 2; rst++) for (int tailctl = 0; tailctl < 3; tailctl++) for (unsigned di = 0; di < sizeof DIST / sizeof DIST[0]; di++) for (int lits = 0; lits < 2; lits++) {
+		ref_chunk ch[6]; int n = 0; static ref_packet lit10[10], tail[3];
+		const char *pn[] = { "U1(5000)", "LE0(5000)", "U1(3000) U2(3000)", "U1(4096)" };
+		if (pre == 0) ch[n++] = (ref_chunk){ .control = 0x01, .data = big, .len = 5000, .props_raw = -1 };
+		else if (pre == 1) ch[n++] = (ref_chunk){ .control = 0xE0, .data = big, .len = 5000, .lc = 3, .lp = 0, .pb = 2, .props_raw = -1 };
+		else if (pre == 2) { ch[n++] = (ref_chunk){ .control = 0x01, .data = big, .len = 3000, .props_raw = -1 }; ch[n++] = (ref_chunk){ .control = 0x02, .data = big + 3000, .len = 3000, .props_raw = -1 }; }
+		else ch[n++] = (ref_chunk){ .control = 0x01, .data = big, .len = 4096, .props_raw = -1 };
+		for (int k = 0; k < 10; k++) lit10[k] = (ref_packet){ RP_LIT, (uint32_t)('A' + k), 0 };
+		if (rst == 0) ch[n++] = (ref_chunk){ .control = 0x01, .data = (const uint8_t *)"ABCDEFGHIJ", .len = 10, .props_raw = -1 };
+		else ch[n++] = (ref_chunk){ .control = 0xE0, .lc = 3, .lp = 0, .pb = 2, .props_raw = -1, .packets = lit10, .npackets = 10 };
+		static const unsigned TC[] = { 0xC0, 0x80, 0xA0 }; int np = 0;
+		if (lits) tail[np++] = (ref_packet){ RP_LIT, 'z', 0 };
+		tail[np++] = (ref_packet){ RP_MATCH, DIST[di], 2 };
+		ch[n++] = (ref_chunk){ .control = TC[tailctl], .lc = 3, .lp = 0, .pb = 2, .props_raw = -1, .packets = tail, .npackets = np };
+		snprintf(seqstr, sizeof seqstr, "dict=4096: %s, %s (dictionary reset, 10 bytes), %02X[%smatch dist=%u len=2]", pn[pre], rst ? "LE0" : "U1", TC[tailctl], lits ? "lit " : "", DIST[di] + 1);
+		rb_out o; rb_init(&o, comp, sizeof comp); size_t pl; int bvalid = ref_lzma2_build(&o, ch, n, plain, sizeof plain, &pl, T_B_DATA, 1);
+		size_t pos = 0; ref_window w = { refo, 0, sizeof refo, 0, 4096, 0 }; ref_lzma2_stats st = { 0 }; int rr = ref_lzma2_decode(o.buf, &pos, o.len, &w, &st);
+		int valid = rr == REF_OK && pos == o.len;
+		if (valid != bvalid) { h_fail("c03:reference-selfcheck", "LZMA2 builder says valid=%d, reference decoder says %d for [%s]", bvalid, rr, seqstr); continue; }
+		for (int bw = 0; bw < 2; bw++) { size_t ol, il; H_CASE("c03 wrap bytewise=%d seq=[%s]", bw, seqstr); lzma_ret r = lz_decode(init_raw4k, NULL, o.buf, o.len, bw, &ol, &il); n_cases++;
+			int ok = r == LZMA_STREAM_END && il == o.len;
+			if (ok != valid) { char key[80]; snprintf(key, sizeof key, "c03:wrap:verdict:%s", valid ? "valid-rejected" : "invalid-accepted");
+				h_fail(key, "liblzma ret=%d consumed %zu/%zu but the LZMA2 stream is %s (reference: %d): %s seq=[%s]", r, il, o.len, valid ? "valid" : "invalid", rr, bw ? "byte-at-a-time" : "one-call", seqstr); break; }
+			if (ok && (ol != pl || memcmp(dec, plain, pl))) { h_fail("c03:wrap:output", "accepted but output differs (%zu vs %zu bytes) %s seq=[%s]", ol, pl, bw ? "byte-at-a-time" : "one-call", seqstr); break; } }
+		if (valid) n_valid++; else n_invalid++;
+	}
+}
+
 // ---- 3. container layouts ---------------------------------------------------------------------------------------
 static int init_stream(lzma_stream *s, void *a) { return lzma_stream_decoder(s, UINT64_MAX, *(uint32_t *)a) == LZMA_OK; }
 static char laystr[300];
@@ -197,7 +232,7 @@ int main(int argc, char **argv) {
 		static const unsigned T9[][3] = { {3,0,2}, {0,0,0}, {0,4,4}, {4,0,0}, {1,2,1}, {0,0,4}, {2,2,0}, {0,3,3}, {3,1,2} };
 		if (thorough) { for (LC = 0; LC <= 4; LC++) for (LP = 0; LP + LC <= 4; LP++) for (PB = 0; PB <= 4; PB++) { int seq[8]; pleaf = 0; prec(seq, 0); } }
 		else for (int t = 0; t < 9; t++) { LC = T9[t][0]; LP = T9[t][1]; PB = T9[t][2]; int seq[8]; pleaf = 0; prec(seq, 0); }
-	} else if (!strcmp(argv[1], "chunks")) { CD = thorough ? 5 : 4; int seq[8]; pleaf = 0; crec(seq, 0); }
+	} else if (!strcmp(argv[1], "chunks")) { CD = thorough ? 5 : 4; int seq[8]; pleaf = 0; crec(seq, 0); if (sh == nsh - 1) wrap_family(); }
 	else if (!strcmp(argv[1], "layouts")) layouts(thorough);
 	else if (sh == 0) reuse();
 	printf("STAT evals=%ld states=%ld transitions=%ld distinct=%ld valid_inputs=%ld invalid_inputs=%ld either=%ld\n", n_cases, n_valid + n_invalid, n_cases, n_valid + n_invalid, n_valid, n_invalid, n_either);
